@@ -121,6 +121,72 @@ func pubsubC06(c *Ctx) {
 				q.add("PROV", "Send returns 0 or the number of copies delivered", okv, "return value is 0 or ping.Send's result", r)
 			}
 		}
+		// polarity of the three decisions of a Send (the counts are compared, not merely "tested")
+		if len(adds) > 0 && len(sends) > 0 && len(loads) > 0 {
+			// zeroIf: the If comparing v (possibly converted) with 0; zs = successor taken when v == 0
+			zeroIf := func(isV func(ssa.Value) bool) (*ssa.If, int, bool) {
+				ifs, negs := P.IfsOn(q.fn, func(cond ssa.Value) bool {
+					b, ok := cond.(*ssa.BinOp)
+					return ok && (b.Op == token.EQL || b.Op == token.NEQ) && either(b, isV, isZero)
+				})
+				if len(ifs) != 1 {
+					return nil, 0, false
+				}
+				zs := 0
+				if negs[0] {
+					zs = 1
+				}
+				if stripNotV(ifs[0].Cond).(*ssa.BinOp).Op == token.NEQ {
+					zs = 1 - zs
+				}
+				return ifs[0], zs, true
+			}
+			locked := loads[len(loads)-1].(*ssa.Call)
+			derivesFrom := func(root ssa.Value) func(ssa.Value) bool {
+				return func(v ssa.Value) bool {
+					for _, s := range P.Sources(v) {
+						if s == root {
+							return true
+						}
+					}
+					return false
+				}
+			}
+			if ifz, zs, ok := zeroIf(derivesFrom(locked)); ok {
+				okz := q.onlyViaEdge(adds[0], ifz, 1-zs) && q.onlyViaEdge(sends[0], ifz, 1-zs)
+				q.add("PATH", "the caster is armed and the value sent only when somebody is subscribed", okz,
+					pickS(okz, "ping.Add / ping.Send are reached only through subscribers != 0", "ping.Add or ping.Send is reachable with a subscriber count of 0 (and skipped when there are subscribers): nobody, or not everybody, would receive"), ifz)
+			} else {
+				q.undecided("PATH", "the caster is armed and the value sent only when somebody is subscribed", "the subscribers == 0 test on the count loaded under sendingMu was not found")
+			}
+			// ping.Add(n) != n panics, == n goes on to send
+			res := adds[0].(*ssa.Call)
+			mIfs, mNegs := P.IfsOn(q.fn, func(cond ssa.Value) bool {
+				b, ok := cond.(*ssa.BinOp)
+				return ok && (b.Op == token.NEQ || b.Op == token.EQL) && either(b, isVal(res), func(v ssa.Value) bool { return v == callArg(adds[0], 1) })
+			})
+			if len(mIfs) == 1 {
+				match := 1 // successor taken when Add returned exactly n
+				if mNegs[0] {
+					match = 0
+				}
+				if stripNotV(mIfs[0].Cond).(*ssa.BinOp).Op == token.EQL {
+					match = 1 - match
+				}
+				okm := q.onlyViaEdge(sends[0], mIfs[0], match) && !P.PathExists(q.fn, mIfs[0], an.IsReturn, nil, cutEdge(mIfs[0], match))
+				q.add("PATH", "a caster that was not idle is a panic, an idle one proceeds to send", okm,
+					pickS(okm, "ping.Send only through ping.Add(n) == n; the other edge never returns normally", "the comparison of ping.Add's result is inverted or ineffective: Send would proceed on a corrupted caster (or panic on a healthy one)"), mIfs[0])
+			}
+			// the pong phase is entered iff copies were delivered, and then always
+			pstores := an.FieldStores(q.fn, "ChanPubSub.pongN")
+			if sIf, zs, ok := zeroIf(derivesFrom(sends[0].(*ssa.Call))); ok && len(pstores) > 0 {
+				okp := q.onlyViaEdge(pstores[0], sIf, 1-zs) && !P.PathExists(q.fn, sIf, an.IsReturn, an.In(pstores), cutEdge(sIf, zs))
+				q.add("PATH", "acknowledgements are awaited iff copies were delivered", okp,
+					pickS(okp, "pongN = sent only through sent != 0, and every return after sent != 0 passes it", "the acknowledgement phase is skipped although copies were delivered (Send returns before the subscribers acknowledged), or entered with nothing owed"), sIf)
+			} else {
+				q.undecided("PATH", "acknowledgements are awaited iff copies were delivered", "the sent != 0 test was not found")
+			}
+		}
 		// zero-subscriber fast path does not block
 		if len(loads) > 0 {
 			first := loads[0].(*ssa.Call)
